@@ -58,6 +58,12 @@ type LoopContract struct {
 	Decreases *Clause
 }
 
+type UpdateClause struct {
+	Text   string
+	Target SExpr
+	Val    SExpr
+}
+
 type GhostUpdate struct {
 	Name string
 	Site string // "entry", "loop N", "call F#k"
@@ -83,6 +89,7 @@ type FuncContract struct {
 	File      string
 	NoPanicOK bool // function has a recover handler; panics become edges
 	Lemmas    []Clause
+	Updates   []UpdateClause // exact memory effect: X[i] := v (evaluated in the pre-state)
 	AllocBound *Clause
 }
 
@@ -476,6 +483,20 @@ func loadContractFile(file string, out map[string]*FuncContract) error {
 			cur.Pure = true
 		case "uses":
 			cur.Uses = append(cur.Uses, strings.Fields(rest)...)
+		case "updates":
+			parts := strings.SplitN(rest, ":=", 2)
+			if len(parts) != 2 {
+				return fail(fmt.Errorf("updates needs X[i] := v"))
+			}
+			te, err := ParseSpec(strings.TrimSpace(parts[0]))
+			if err != nil {
+				return fail(err)
+			}
+			ve, err := ParseSpec(strings.TrimSpace(parts[1]))
+			if err != nil {
+				return fail(err)
+			}
+			cur.Updates = append(cur.Updates, UpdateClause{rest, te, ve})
 		case "modifies":
 			for _, m := range strings.Split(rest, ",") {
 				cur.Modifies = append(cur.Modifies, strings.TrimSpace(m))
